@@ -22,6 +22,8 @@ def inv_trigger_context(S_, t):
         S_.pre(h.f(t, "callbacks"), "list"), h.llen(h.f(t, "callbacks")) >= 0,
         S_.pre(h.f(t, "vars"), "dict"),
         S_.pre(h.f(t, "var_cache"), "VariableCacheProvider"),
+        S_.pre(h.f(h.f(t, "var_cache"), "VariableCacheProvider.__cache"), "dict"),
+        h.f(h.f(t, "var_cache"), "VariableCacheProvider.__cache") != h.f(t, "vars"),
     )
 
 
@@ -32,6 +34,8 @@ def inv_action_context(S_, a):
         S_.pre(h.f(a, "location_action"), "LocationAction"),
         CLASS_INV("LocationAction")(S_, h.f(a, "location_action")),
         Val.is_VBool(h.f(a, "_triggered")),
+        S_.pre(h.f(a, "var_cache"), "VariableCacheProvider"),
+        S_.pre(h.f(h.f(a, "var_cache"), "VariableCacheProvider.__cache"), "dict"),
     )
 
 
